@@ -31,12 +31,19 @@ class Hist:
         if st is None:
             return
         self.n += 1
-        self.out.append(f"int z{self.n} = sizeof ( {n} ) ;")
+        if len(self.scopes) > 1 and self.rng.random() < 0.5:
+            # inside a function body: an expression-statement probe, which declares nothing (a declaration would itself
+            # change the parser's symbol-table state right after the probe)
+            self.out.append(f"z{self.n} = sizeof ( {n} ) ;")
+        else:
+            self.out.append(f"int z{self.n} = sizeof ( {n} ) ;")
         self.probes.append((f"z{self.n}", n, st))
 
     def probes_all(self):
+        # not after every event: a use followed directly by a scope exit / another use must be observable too
         for n in NAMES:
-            self.probe(n)
+            if self.rng.random() < 0.6:
+                self.probe(n)
 
     def decl(self, n, is_typedef):
         cur = self.scopes[-1]
@@ -80,6 +87,23 @@ class Hist:
                 self.scopes.pop()
                 self.exits += 1
                 self.out.append("}")
+            elif k == 6 and depth > 0 and self.lookup(n) is not None:
+                # directed: shadow the name with the opposite kind in a nested block, use it there (or not), leave the block,
+                # and look at the name again at once - with nothing in between that could refresh the parser's view
+                outer = self.lookup(n)
+                self.out.append("{")
+                self.scopes.append({})
+                self.decl(n, not outer)
+                for _ in range(r.randint(0, 2)):
+                    if self.lookup(n) is False and r.random() < 0.5:
+                        self.out.append(r.choice([f"{n} = 1 ;", f"( {n} ) ;", f"{n} ++ ;"]))
+                    else:
+                        self.probe(n)
+                self.scopes.pop()
+                self.exits += 1
+                self.shadow += 1
+                self.out.append("}")
+                self.probe(n)
             elif k == 3:
                 self.out.append(f"struct S{self.n} {{ int {n} ; }} ;")      # member names never matter
                 self.n += 1
@@ -87,7 +111,7 @@ class Hist:
                 self.out.append(f"struct {n} * sp{self.n} ;")               # tags never matter
                 self.n += 1
             elif k == 5 and self.lookup(n) is False:
-                self.out.append(f"{n} = 1 ;" if False else f"( {n} ) ;")
+                self.out.append(self.rng.choice([f"{n} = 1 ;", f"( {n} ) ;", f"{n} ++ ;", f"g ( {n} , {n} ) ;"]))     # plain uses of an ordinary identifier
             self.probes_all()
 
     def program(self):
@@ -138,6 +162,8 @@ def check_probes(ast, probes):
             return
         if type(n).__name__ == "Decl" and isinstance(n.name, str) and n.name.startswith("z") and n.init is not None:
             found[n.name] = type(n.init.expr).__name__
+        if type(n).__name__ == "Assignment" and type(n.lvalue).__name__ == "ID" and n.lvalue.name.startswith("z") and type(n.rvalue).__name__ == "UnaryOp":
+            found[n.lvalue.name] = type(n.rvalue.expr).__name__
         for s in type(n).__slots__:
             if s not in ("coord", "__weakref__"):
                 walk(getattr(n, s))
